@@ -37,6 +37,11 @@ def run(rep, work, tier, seed, only=None):
         rep.case(('spec', jd(s['spec'])), nsim > 1, sample={'kind': s['kind'], 'n_simulations': nsim, 'spec': s['spec']} if len(rep.samples) < 3 else None)
         rep.count('spec:' + s['kind'])
         key = {'site': 'read_input_dict', 'kind': s['kind']}
+        if s.get('echo_bad'):
+            si_, got_ = s['echo_bad'][0]
+            rep.violation(dict(key, clause='parameters-echo'),
+                          'simulation %d of a %s specification is built with noise direction %s, which is none of the requested %s'
+                          % (si_, s['kind'], got_, s.get('requested_directions')), {'spec': s['spec'], 'simulation': si_, 'built_direction': got_})
         if 'error' in s:
             rep.violation(key, 'read_input_dict raised %s on a %s specification' % (s['error'], s['kind']), {'spec': s['spec'], 'error': s['error']})
             continue
